@@ -11,6 +11,11 @@ assignments / calls on ONE real object; after every step
 Machines: (a) Background2D, (b) RadialProfile / CurveOfGrowth normalize,
 (c) pixel apertures (+ LocalBackground's annulus), (d) PSFPhotometry,
 IterativePSFPhotometry, star finders, Ellipse.fit_image, GriddedPSFModel.
+Histories ACROSS objects: objects sharing helper instances (default-argument
+singletons or one instance given to two constructors) are used alternately and
+compared with objects built from private copies of the pristine defaults;
+apertures of several classes are driven in one fresh subprocess per scenario
+(class-level state is decided by whichever class is re-assigned first).
 """
 import itertools
 import math
@@ -265,8 +270,17 @@ def replay_bkg(r):
 # (b) profiles
 # --------------------------------------------------------------------------
 POPS = ['profile', 'profile_error', 'data_profile', 'normalization_value', "normalize('max')",
-        "normalize('sum')", 'unnormalize()']
+        "normalize('sum')", 'unnormalize()',
+        # further public reads (no gaussian_*: documented not to follow normalize)
+        'calc_ee_at_radius(r)', 'calc_radius_at_ee(ee)', 'area', 'radius', 'data_radius']
 PKEYS = ['profile', 'profile_error', 'data_profile']
+PMUT = (4, 5, 6)
+P_EE_R = np.array([0.25, 0.75, 1.5, 2.25, 3.0, 10.0])
+P_EE_V = np.array([0.1, 0.5, 0.9, 5.0, 50.0, 400.0])
+
+
+def is_pread(op):
+    return op not in PMUT
 
 
 def prof_make(cfg):
@@ -308,8 +322,12 @@ def prof_apply(obj, op):
     """returns (exc, value) of one operation"""
     try:
         with Quiet():
-            if op <= 3:
+            if op <= 3 or op >= 9:
                 return 0, getattr(obj, POPS[op])
+            if op == 7:
+                return 0, obj.calc_ee_at_radius(P_EE_R)
+            if op == 8:
+                return 0, obj.calc_radius_at_ee(P_EE_V)
             if op == 4:
                 obj.normalize('max')
             elif op == 5:
@@ -342,9 +360,10 @@ def prof_run(cfg, hist, cache):
     with Quiet():
         obj = prof_make(cfg)
     obs, bad, muts = [], [], []
+    iscog = cfg['cls'] == 'CurveOfGrowth'
     for k, op in enumerate(hist):
         exc, v = prof_apply(obj, op)
-        if op <= 3:
+        if is_pread(op):
             fexc, fv = prof_fresh(cfg, muts, op, cache)
             if exc != fexc:
                 bad.append((k, POPS[op], f'raises (code {exc}) where a fresh object gives code {fexc}'))
@@ -353,8 +372,12 @@ def prof_run(cfg, hist, cache):
         elif exc != 0:
             bad.append((k, POPS[op], f'raises (code {exc})'))
         arr = farr(v) if (op <= 3 and exc == 0) else []
-        obs.append((op, exc, arr, zf(nv_of(obj)), [a in obj.__dict__ for a in PKEYS]))
-        if op >= 4:
+        # the Coq machine knows ops 0-6; calc_* (CurveOfGrowth) touch the cache like a read of
+        # profile (op >= 7, value not compared in Coq); the other extra reads touch none of the
+        # three modelled cache keys and are left out of the Coq history
+        if op <= 6 or (op in (7, 8) and iscog):
+            obs.append((op, exc, arr, zf(nv_of(obj)), [a in obj.__dict__ for a in PKEYS]))
+        if op in PMUT:
             muts.append(op)
     return obs, bad
 
@@ -393,17 +416,19 @@ def section_prof(ctx, cases, meta):
         hists = []
         for _ in range(nh):
             n = rng.randint(1, 8)
-            hists.append([rng.choice([0, 1, 2, 3, 4, 4, 5, 6, 6]) for _ in range(n)])
-        hists += [[4, 2, 6, 2], [2, 4, 2, 6, 2], [5, 0, 1, 2, 3], [4, 5, 6, 0, 2]]
+            hists.append([rng.choice([0, 1, 2, 3, 4, 4, 5, 6, 6, 7, 8, 9, 10, 11]) for _ in range(n)])
+        hists += [[4, 2, 6, 2], [2, 4, 2, 6, 2], [5, 0, 1, 2, 3], [4, 5, 6, 0, 2], [7, 4, 7, 8, 6, 7, 8]]
         if ctx.tier == 'thorough':
             # every order of the three first reads around one normalize / one unnormalize
             for p in itertools.permutations([0, 1, 2, 4, 6]):
                 hists.append(list(p) + [0, 1, 2])
-            ctx.stat('prof', 'permutation_histories', 120)
+            for p in itertools.permutations([7, 8, 0, 4, 6]):
+                hists.append(list(p) + [7, 8])
+            ctx.stat('prof', 'permutation_histories', 240)
         for h in hists:
             obs, bad = prof_run(cfg, h, cache)
             desc = {'machine': 'profile', 'config': cfg, 'history': [POPS[o] for o in h]}
-            ctx.count_case(desc, any(o >= 4 for o in h))
+            ctx.count_case(desc, any(o in PMUT for o in h))
             ctx.stat('prof', f"{cfg['cls']},{cfg['kind']}")
             for (k, name, what) in bad:
                 report(ctx, f"{cfg['cls']}.{name}:order-dependent",
@@ -661,6 +686,8 @@ def psf_table(d, ini, tab):
         t['flux'] = [s[2] * 0.9 for s in src]
     if tab & 2:
         t['local_bkg'] = [0.25] * len(src)
+    if tab & 8:       # initial values for an extra (free) model parameter
+        t['fwhm'] = [3.5, 3.25, 3.75, 2.75][:len(src)]
     if ini == 2:
         t['group_id'] = [1] * len(src) if tab & 4 else list(range(len(src), 0, -1))
     if ini == 3:      # one source far outside the image: the call raises ValueError half-way
@@ -668,19 +695,29 @@ def psf_table(d, ini, tab):
     return t
 
 
-def psf_make(cfg):
+def psf_make(cfg, shared=None):
+    """shared: helper instances (finder, grouper, localbkg, fitter) to use instead of new ones"""
     from photutils.background import LocalBackground
     from photutils.detection import DAOStarFinder
     from photutils.psf import CircularGaussianPRF, IterativePSFPhotometry, PSFPhotometry, SourceGrouper
-    psf = CircularGaussianPRF(fwhm=3.0)
-    finder = DAOStarFinder(5.0, 3.0) if cfg['finder'] else None
-    grouper = SourceGrouper(6.0) if cfg['grouper'] else None
-    lb = LocalBackground(5.0, 8.0) if cfg['localbkg'] else None
+    if cfg.get('freefwhm'):           # a free parameter beyond x, y, flux
+        psf = CircularGaussianPRF(fwhm=2.5)
+        psf.fwhm.fixed = False
+    else:
+        psf = CircularGaussianPRF(fwhm=3.0)
+    sh = shared or {}
+    finder = sh.get('finder', DAOStarFinder(5.0, 3.0)) if cfg['finder'] else None
+    grouper = sh.get('grouper', SourceGrouper(6.0)) if cfg['grouper'] else None
+    lb = sh.get('localbkg', LocalBackground(5.0, 8.0)) if cfg['localbkg'] else None
+    kw = dict(grouper=grouper, localbkg_estimator=lb, aperture_radius=4.0, xy_bounds=cfg.get('xyb'))
+    if 'fitter' in sh:
+        kw['fitter'] = sh['fitter']
     if cfg['iterative']:
-        return IterativePSFPhotometry(psf, (5, 5), finder, grouper=grouper, localbkg_estimator=lb,
-                                      aperture_radius=4.0, mode=cfg['mode'], maxiters=2)
-    return PSFPhotometry(psf, (5, 5), finder=finder, grouper=grouper, localbkg_estimator=lb,
-                         aperture_radius=4.0)
+        obj = IterativePSFPhotometry(psf, (5, 5), finder, mode=cfg['mode'], maxiters=2, **kw)
+    else:
+        obj = PSFPhotometry(psf, (5, 5), finder=finder, **kw)
+    obj._c09_model0 = np.array(psf.parameters)      # the constructor's model, as given
+    return obj
 
 
 def psf_call(obj, d, ini, tab):
@@ -726,6 +763,9 @@ def psf_run(cfg, calls, cache):
         p = getattr(obj, '_psfphot', obj)
         if (p.grouper is None) != (not cfg['grouper']):
             bad.append((k, 'GROUPER: the grouper given to the constructor was replaced by None'))
+        if not same(np.array(p.psf_model.parameters), obj._c09_model0):
+            bad.append((k, f'MODEL: the parameters of the psf_model given to the constructor were overwritten: '
+                           f'{obj._c09_model0.tolist()} -> {np.array(p.psf_model.parameters).tolist()}'))
         obs.append((d, ini, tab, (exc, res is None, eqf),
                     (p.grouper is None, p.results is None, p.finder_results is None)))
     return obs, bad
@@ -736,12 +776,18 @@ def section_psf(ctx, cases, meta):
     nh = 6 if ctx.tier == 'quick' else 12
     cfgs = []
     for finder, grouper, localbkg in itertools.product([True, False], [True, False], [True, False]):
-        cfgs.append(dict(finder=finder, grouper=grouper, localbkg=localbkg, iterative=False, mode=None))
+        # models with / without a free shape parameter, with / without position bounds
+        cfgs.append(dict(finder=finder, grouper=grouper, localbkg=localbkg, iterative=False, mode=None,
+                         freefwhm=rng.random() < 0.5, xyb=rng.choice([None, None, 2.0])))
+    cfgs.append(dict(finder=False, grouper=False, localbkg=False, iterative=False, mode=None, freefwhm=True, xyb=None))
+    cfgs.append(dict(finder=True, grouper=True, localbkg=False, iterative=False, mode=None, freefwhm=True, xyb=None))
     for grouper, mode in [(True, 'new'), (True, 'all'), (False, 'new')]:
-        cfgs.append(dict(finder=True, grouper=grouper, localbkg=rng.random() < 0.5, iterative=True, mode=mode))
+        cfgs.append(dict(finder=True, grouper=grouper, localbkg=rng.random() < 0.5, iterative=True, mode=mode,
+                         freefwhm=rng.random() < 0.5, xyb=None))
     for cfg in cfgs:
         cache = {}
         hists = [[(0, 2, 0), (0, 1, 0), (0, 0, 0)] if cfg['finder'] else [(0, 2, 0), (0, 1, 0), (0, 1, 1)]]
+        hists.append([(0, 1, 8), (0, 1, 0), (1, 1, 9), (1, 1, 1)])      # column sets differing from call to call
         for _ in range(nh):
             h = []
             for _ in range(rng.randint(2, 5 if ctx.tier == 'quick' else 8)):
@@ -749,16 +795,18 @@ def section_psf(ctx, cases, meta):
                 if rng.random() < 0.08:
                     ini = 3
                 d = rng.choice([0, 1, 2, -1]) if ini == 0 else rng.choice([0, 1, 2])
-                h.append((d, ini, rng.randrange(8) if ini else 0))
+                h.append((d, ini, rng.randrange(16) if ini else 0))
             hists.append(h)
         for h in hists:
             obs, bad = psf_run(cfg, h, cache)
             desc = {'machine': 'IterativePSFPhotometry' if cfg['iterative'] else 'PSFPhotometry', 'config': cfg,
                     'calls': [list(c) for c in h]}
             ctx.count_case(desc, len(h) > 1)
-            ctx.stat('psf', f"{'iter' if cfg['iterative'] else 'psf'},finder={cfg['finder']},grouper={cfg['grouper']}")
+            ctx.stat('psf', f"{'iter' if cfg['iterative'] else 'psf'},finder={cfg['finder']},grouper={cfg['grouper']},"
+                            f"free_fwhm={cfg['freefwhm']},xy_bounds={cfg['xyb']}")
             for (k, what) in bad:
                 sig = (f"{desc['machine']}.grouper:replaced-by-None" if what.startswith('GROUPER')
+                       else f"{desc['machine']}.psf_model:parameters-overwritten" if what.startswith('MODEL')
                        else f"{desc['machine']}.__call__:after-earlier-call")
                 report(ctx, sig,
                               f"{desc['machine']} call {k} {what}; calls (image, init_params kind, columns) = {h[:k + 1]}",
@@ -788,8 +836,10 @@ def finder_make(kind):
     if kind == 'IRAFStarFinder':
         return IRAFStarFinder(5.0, 3.0)
     yy, xx = np.mgrid[-3:4, -3:4]
-    kernel = 7.0 * np.exp(-(xx ** 2 + yy ** 2) / 3.0)      # max != 1: normalised in place by the first call
-    return StarFinder(5.0, kernel, min_separation=2.0)
+    kernel = 7.0 * np.exp(-(xx ** 2 + yy ** 2) / 3.0)      # max != 1: a normalised copy is used by each call
+    obj = StarFinder(5.0, kernel, min_separation=2.0)
+    obj._c09_kernel0 = kernel.copy()
+    return obj
 
 
 def section_finders(ctx):
@@ -813,12 +863,11 @@ def section_finders(ctx):
                 except Exception as e:  # noqa
                     exc = exc_code(e)
                 if kind == 'StarFinder':
-                    # hypothesis of starfinder_calls_fresh_partial: the in-place normalisation is idempotent
-                    kernels.append(np.array(obj.kernel))
-                    ctx.support('StarFinder kernel normalisation idempotent (bitwise)')
-                    if not same(kernels[-1], kernels[0]):
-                        report(ctx, 'StarFinder.kernel:normalisation-not-idempotent',
-                                      f'StarFinder.kernel after call {k} differs from its value after the first call',
+                    # the model's state component: the kernel attribute is only read (starfinder_calls_fresh)
+                    ctx.support('StarFinder.kernel unchanged by a call (bitwise)')
+                    if not same(np.array(obj.kernel), obj._c09_kernel0):
+                        report(ctx, 'StarFinder.kernel:modified-by-call',
+                                      f'StarFinder.kernel after call {k} differs from the kernel given to the constructor',
                                       dict(desc, step=k))
                 if d not in fresh:
                     with Quiet():
@@ -902,6 +951,11 @@ def section_ellipse(ctx, cases, meta):
     g0s = [dict(lin=False, fix=[False] * 4), dict(lin=True, fix=[False] * 4),
            dict(lin=False, fix=[False, False, True, False])]
     nh = 3 if ctx.tier == 'quick' else 8
+    # the Coq machine is the code as found (legacy) as long as the persistence is a recorded known
+    # finding (fix C09-4 not applied), and the repaired one otherwise
+    legacy = any(kf.get('property') == PID and kf.get('signature') == 'Ellipse.fit_image:geometry-persists'
+                 for kf in ctx.known.get('findings', []))
+    ctx.stat('ellipse', 'compared with the ' + ('code-as-found (legacy) machine' if legacy else 'repaired machine'))
     for g0 in g0s:
         cache = {}
         hists = [[(0, True, False, False), (0, False, False, False)]]
@@ -922,8 +976,8 @@ def section_ellipse(ctx, cases, meta):
                 report(ctx, 'Ellipse.fit_image:geometry-persists',
                               f'Ellipse.fit_image call {k} {what}; calls (linear, fix_center, fix_pa, fix_eps) = {h[:k + 1]}',
                               dict(desc, step=k, cmd='bin/check C09 --replay <this file>'))
-            cases.append(f"CEll {coq(g0['lin'])} {coq([bool(x) for x in g0['fix']])} {coq(obs)}")
-            meta.append(('ell', desc, bool(bad)))
+            cases.append(f"CEll {coq(legacy)} {coq(g0['lin'])} {coq([bool(x) for x in g0['fix']])} {coq(obs)}")
+            meta.append(('ell', desc, bool(bad) and not legacy))
 
 
 def replay_ell(r):
@@ -965,6 +1019,7 @@ def section_grid(ctx, cases, meta):
         yg = sorted(rng.sample(range(0, 40, 4), ny))
         cfg = dict(seed=rng.randrange(1000), xg=xg, yg=yg, os=rng.choice([1, 2]))
         m = grid_make(cfg)
+        users = [m, m.copy()]            # copy() shares the _interpolator dictionary with the original
         obs, h = [], []
         for k in range(rng.randint(1, 8)):
             xy = (rng.randint(-4, 84) / 2.0, rng.randint(-4, 84) / 2.0)
@@ -973,7 +1028,7 @@ def section_grid(ctx, cases, meta):
             h.append(xy)
             exc, v = 0, None
             try:
-                v = grid_eval(m, xy)
+                v = grid_eval(users[0] if rng.random() < 0.7 else users[1], xy)
             except Exception as e:  # noqa
                 exc = exc_code(e)
             fv = grid_eval(grid_make(cfg), xy)
@@ -992,19 +1047,440 @@ def section_grid(ctx, cases, meta):
 
 
 # --------------------------------------------------------------------------
+# cross-object histories: several objects sharing helper instances (default-argument
+# singletons or one instance passed to two constructors), used alternately
+# --------------------------------------------------------------------------
+_PRISTINE = {}
+
+
+def helper_defaults(cls):
+    """constructor parameters whose default is a (shared) helper instance"""
+    import inspect
+    out = {}
+    for n, prm in inspect.signature(cls.__init__).parameters.items():
+        d = prm.default
+        if d is not inspect.Parameter.empty and not isinstance(d, (int, float, str, bool, tuple, type(None))):
+            out[n] = d
+    return out
+
+
+def snapshot_pristine():
+    """Deep copies of every default-argument helper, taken BEFORE any object of this run exists:
+    the reference ("fresh") objects of the cross-object histories are built from copies of these."""
+    import copy
+    from photutils.background import Background2D, LocalBackground
+    from photutils.psf import IterativePSFPhotometry, PSFPhotometry
+    for cls in (Background2D, LocalBackground, PSFPhotometry, IterativePSFPhotometry):
+        _PRISTINE[cls.__name__] = copy.deepcopy(helper_defaults(cls))
+
+
+def private_helpers(clsname):
+    import copy
+    return copy.deepcopy(_PRISTINE[clsname])
+
+
+def xbkg_build(base, var, helpers):
+    """base: data / box / region; var: which argument carries the blank region, fill value, scale."""
+    from photutils.background import Background2D
+    r = np.random.default_rng(base['seed'])
+    ny, nx = base['shape']
+    by, bx = base['box']
+    d = r.integers(0, 40, (ny, nx)).astype(float) / 4.0 + np.linspace(0, 5, nx)[None, :]
+    region = np.zeros((ny, nx), bool)
+    region[:, :bx] = True            # one full column of boxes
+    region[ny - by:, :] = True       # and one full row of boxes
+    d = d * var['scale']
+    if var['nan_region']:
+        d[region] = np.nan
+    kw = dict(helpers)
+    if var['cov']:
+        kw['coverage_mask'] = region.copy()
+    if var['mask']:
+        kw['mask'] = region.copy()
+    return Background2D(d, (by, bx), fill_value=var['fill'], **kw)
+
+
+def xbkg_shared(mode):
+    import photutils.background as pb
+    if mode.startswith('one-'):
+        name, cls = mode[4:].split(':')
+        return {name: getattr(pb, cls)()}
+    return {}
+
+
+def xbkg_run(base, variants, mode, ops):
+    """objects built with shared helpers, read alternately; returns (per-object Coq observations, bad)"""
+    shared = xbkg_shared(mode)
+    with Quiet():
+        objs = [xbkg_build(base, v, shared) for v in variants]
+    ref = {}
+    per_obj = [[] for _ in objs]
+    bad = []
+    for k, (j, r) in enumerate(ops):
+        attr = BREADS[r]
+        exc, v = 0, None
+        try:
+            with Quiet():
+                v = getattr(objs[j], attr)
+        except Exception as e:  # noqa
+            exc = exc_code(e)
+        if (j, r) not in ref:
+            priv = private_helpers('Background2D')
+            for name, inst in shared.items():
+                priv[name] = type(inst)()
+            with Quiet():
+                ref[(j, r)] = getattr(xbkg_build(base, variants[j], priv), attr)
+        eqf = exc == 0 and same(v, ref[(j, r)])
+        if exc or not eqf:
+            bad.append((k, j, attr, 'raises' if exc else 'differs from the same object built with private helper '
+                                                         'instances'))
+        o = objs[j]
+        per_obj[j].append((r, exc, eqf, o._bkg_stats is None, o._bkgrms_stats is None,
+                           [a in o.__dict__ for a in BLAZY]))
+    return per_obj, bad
+
+
+def section_cross_bkg(ctx, cases, meta):
+    rng = ctx.rng
+    n = 10 if ctx.tier == 'quick' else 60
+    modes = ['defaults', 'one-interpolator:BkgZoomInterpolator', 'one-interpolator:BkgIDWInterpolator',
+             'one-bkg_estimator:MedianBackground']
+    plans = [(m, True) for m in modes] + [(rng.choice(modes + ['defaults']), False) for _ in range(n)]
+    for mode, canonical in plans:
+        base = dict(seed=rng.randrange(1000), shape=rng.choice([(30, 35), (24, 30)]), box=rng.choice([(6, 5), (6, 6)]))
+        nobj = 2 if canonical else rng.randint(2, 3)
+        variants = []
+        for j in range(nobj):
+            where = rng.choice(['cov', 'mask', 'both', 'none'])
+            variants.append(dict(cov=where in ('cov', 'both'), mask=where in ('mask', 'both'),
+                                 nan_region=where != 'none' and rng.random() < 0.7,
+                                 fill=rng.choice([0.0, -1.0, float('nan')]), scale=rng.choice([1.0, 1.0, 2.0])))
+        if canonical or variants[0]['cov'] == variants[1]['cov']:
+            # the same low-resolution mesh reached with and without a coverage mask
+            c0 = rng.random() < 0.5
+            variants[0] = dict(variants[0], cov=c0, mask=not c0, nan_region=True)
+            variants[1] = dict(variants[0], cov=not c0, mask=c0)
+        if canonical:
+            # every map read on one object and immediately on the other, in both orders
+            ops = [(0, 4), (1, 4), (1, 5), (0, 5), (1, 4), (0, 4), (0, 5), (1, 5)]
+        else:
+            focus = rng.choice([4, 5])
+            ops = [(rng.randrange(nobj), focus if rng.random() < 0.6 else rng.choice([0, 1, 2, 4, 5, 7]))
+                   for _ in range(rng.randint(3, 8))]
+        per_obj, bad = xbkg_run(base, variants, mode, ops)
+        desc = {'machine': 'Background2D-objects-sharing-helpers', 'base': base, 'variants': variants,
+                'helpers': mode, 'ops': [[j, BREADS[r]] for j, r in ops]}
+        for (k, j, attr, what) in bad:
+            report(ctx, f'Background2D.{attr}:depends-on-other-objects',
+                   f'Background2D.{attr} of object {j} {what} after the reads {desc["ops"][:k]} on objects sharing '
+                   f'{mode}', dict(desc, step=k, cmd='bin/check C09 --replay <this file>'))
+        ctx.count_case(desc, True)
+        ctx.stat('cross', f'Background2D,{mode}')
+        for obs in per_obj:
+            if obs:
+                cases.append(f'CBkg false false false {coq(obs)}')
+                meta.append(('bkg', desc, bool(bad)))
+
+
+def replay_cross_bkg(r):
+    snapshot_pristine()
+    _, bad = xbkg_run(r['base'], r['variants'], r['helpers'], [(j, BREADS.index(a)) for j, a in r['ops']])
+    for (k, j, attr, what) in bad:
+        print(f'step {k}: Background2D.{attr} of object {j} {what}')
+    return bad
+
+
+def xpsf_run(cfgs, mode, calls):
+    from photutils.background import LocalBackground
+    from photutils.detection import DAOStarFinder
+    from photutils.psf import SourceGrouper
+    shared = {}
+    if mode != 'default-fitter':
+        shared = {'finder': DAOStarFinder(5.0, 3.0), 'grouper': SourceGrouper(6.0),
+                  'localbkg': LocalBackground(5.0, 8.0)}
+    with Quiet():
+        objs = [psf_make(c, shared) for c in cfgs]
+    per_obj = [[] for _ in objs]
+    bad = []
+    for k, (j, d, ini, tab) in enumerate(calls):
+        exc, res = psf_call(objs[j], d, ini, tab)
+        with Quiet():
+            f = psf_make(cfgs[j], {'fitter': private_helpers('PSFPhotometry')['fitter']})
+        fexc, fres = psf_call(f, d, ini, tab)
+        eqf = exc == 0 and fexc == 0 and same(res, fres)
+        if exc != fexc:
+            bad.append((k, j, f'raises (code {exc}) where an object with private helper instances gives code {fexc}'))
+        elif exc == 0 and not eqf:
+            bad.append((k, j, 'differs from an object with private helper instances'))
+        p = getattr(objs[j], '_psfphot', objs[j])
+        per_obj[j].append((d, ini, tab, (exc, res is None, eqf),
+                           (p.grouper is None, p.results is None, p.finder_results is None)))
+    return per_obj, bad
+
+
+def section_cross_psf(ctx, cases, meta):
+    rng = ctx.rng
+    n = 4 if ctx.tier == 'quick' else 20
+    for _ in range(n):
+        mode = rng.choice(['default-fitter', 'one-finder-grouper-localbkg'])
+        cfgs = [dict(finder=True, grouper=rng.random() < 0.6, localbkg=rng.random() < 0.6,
+                     iterative=rng.random() < 0.3, mode='new', freefwhm=rng.random() < 0.5, xyb=None)
+                for _ in range(2)]
+        calls = []
+        for k in range(rng.randint(3, 6)):
+            ini = rng.choice([0, 1, 2])
+            d = rng.choice([0, 1, 2, -1]) if ini == 0 else rng.choice([0, 1, 2])
+            calls.append([rng.randrange(2), d, ini, rng.randrange(16) if ini else 0])
+        per_obj, bad = xpsf_run(cfgs, mode, calls)
+        desc = {'machine': 'PSFPhotometry-objects-sharing-helpers', 'configs': cfgs, 'helpers': mode, 'calls': calls}
+        for (k, j, what) in bad:
+            report(ctx, 'PSFPhotometry.__call__:depends-on-other-objects',
+                   f'call {k} (object {j}) {what}; calls (object, image, init kind, columns) = {calls[:k + 1]}; '
+                   f'objects share {mode}', dict(desc, step=k, cmd='bin/check C09 --replay <this file>'))
+        ctx.count_case(desc, True)
+        ctx.stat('cross', f'PSFPhotometry,{mode}')
+        for j, obs in enumerate(per_obj):
+            if obs and not cfgs[j]['iterative']:
+                cases.append(f"CPsf true {coq(cfgs[j]['grouper'])} {coq(obs)}")
+                meta.append(('psf', desc, bool(bad)))
+
+
+def replay_cross_psf(r):
+    snapshot_pristine()
+    _, bad = xpsf_run(r['configs'], r['helpers'], [tuple(c) for c in r['calls']])
+    for (k, j, what) in bad:
+        print(f'call {k} (object {j}): {what}')
+    return bad
+
+
+# --------------------------------------------------------------------------
+# apertures of several classes in ONE process, one fresh subprocess per scenario: state kept
+# at class / module level is decided by whichever class is re-assigned first in the process
+# --------------------------------------------------------------------------
+SKYCLS = {'SkyCircularAperture': ['positions', 'r'], 'SkyEllipticalAperture': ['positions', 'a', 'b', 'theta']}
+
+
+def sky_decode(v):
+    import astropy.units as u
+    from astropy.coordinates import SkyCoord
+    kind, x = v
+    if kind == 'sky':
+        return SkyCoord(x[0], x[1], unit='deg')
+    if kind == 'arcsec':
+        return x * u.arcsec
+    if kind == 'deg':
+        return x * u.deg
+    raise ValueError(kind)
+
+
+class ApObj:
+    """one aperture driven step by step (pixel classes: observations for the Coq machine)"""
+
+    def __init__(self, clsname, init):
+        self.clsname = clsname
+        self.sky = clsname in SKYCLS
+        self.names = SKYCLS[clsname] if self.sky else APCLS[clsname][0]
+        self.cls = ap_class(clsname)
+        self.dec = sky_decode if self.sky else ap_decode
+        self.cur = dict(init)
+        with Quiet():
+            self.obj = self.cls(**{k: self.dec(v) for k, v in self.cur.items()})
+        keys0 = [a in self.obj.__dict__ for a in ALAZY]
+        self.nid = 100
+        self.obs = []
+        for i, _ in enumerate(self.names):
+            self.obs.append((0, i, self.nid, True, (0, True, keys0)))
+            self.nid += 1
+
+    def step(self, op):
+        """returns None or a description of the violation"""
+        bad = None
+        if op[0] == 'set':
+            _, i, vd, valid = op
+            exc = 0
+            try:
+                with Quiet():
+                    setattr(self.obj, self.names[i], self.dec(vd))
+            except Exception as e:  # noqa
+                exc = exc_code(e)
+            if exc == 0:
+                self.cur[self.names[i]] = vd
+            if valid and exc:
+                bad = (self.names[i], f'assignment raises (code {exc})')
+            self.obs.append((0, i, self.nid, bool(valid), (exc, True, [a in self.obj.__dict__ for a in ALAZY])))
+            self.nid += 1
+        else:
+            a = op[1]
+            exc, v = 0, None
+            try:
+                with Quiet():
+                    v = ap_read(self.obj, a)
+            except Exception as e:  # noqa
+                exc = exc_code(e)
+            with Quiet():
+                fr = ap_read(self.cls(**{n: self.dec(x) for n, x in self.cur.items()}), a)
+            eqf = exc == 0 and same(v, fr)
+            nm = ALAZY[a] if a < 8 else f'to_mask({AMETH[a - 8][0]})'
+            if exc:
+                bad = (nm, f'raises (code {exc})')
+            elif not eqf:
+                bad = (nm, 'differs from a fresh aperture with the current parameters')
+            self.obs.append((1, a, 0, True, (exc, eqf, [x in self.obj.__dict__ for x in ALAZY])))
+        return bad
+
+
+def aper_scenario(rng):
+    """2-4 apertures of different classes (pixel and sky) in one process.  Every object gets one or two
+    read -> re-assign -> read blocks (plus a few stray reads / rejected assignments); the blocks of the
+    different objects are merged at random, and the object whose re-assignment comes FIRST in the process
+    is drawn at random (class-level state is decided by the first re-assignment)."""
+    classes = rng.sample(list(APCLS) + list(SKYCLS), rng.randint(2, 4))
+    if rng.random() < 0.25:
+        classes.append(rng.choice(classes))          # two objects of the same class
+    objs, queues = [], []
+    for j, c in enumerate(classes):
+        q = []
+        if c in SKYCLS:
+            init = {'positions': ['sky', [10.0 + rng.randint(0, 8) / 4.0, 20.0]]}
+            for nme in SKYCLS[c][1:]:
+                init[nme] = ['deg', float(rng.randint(0, 90))] if nme == 'theta' else ['arcsec', rng.randint(2, 12) / 4.0]
+            for _ in range(rng.randint(1, 2)):
+                a = rng.choice([0, 1])
+                i = rng.randrange(1, len(SKYCLS[c]))
+                nme = SKYCLS[c][i]
+                vd = ['deg', float(rng.randint(0, 90))] if nme == 'theta' else ['arcsec', rng.randint(2, 12) / 4.0]
+                q += [[j, 'read', a], [j, 'set', i, vd, True], [j, 'read', a]]
+        else:
+            names = APCLS[c][0]
+            init = {}
+            for nme in names:
+                init[nme] = ap_value(rng, nme, init, True)
+            cur = dict(init)
+            for _ in range(rng.randint(1, 2)):
+                a = rng.choice([3, 4, 5, 5, 6, 7, 7, 8, 9, 10])
+                i = rng.randrange(len(names))
+                vd = ap_value(rng, names[i], cur, True)
+                cur[names[i]] = vd
+                q += [[j, 'read', a], [j, 'set', i, vd, True], [j, 'read', a]]
+                if rng.random() < 0.3:
+                    q.append([j, 'read', rng.choice([3, 5, 7, 8, 10])])
+                if rng.random() < 0.15:
+                    i2 = rng.randrange(len(names))
+                    q.append([j, 'set', i2, ap_value(rng, names[i2], cur, False), False])
+        objs.append({'class': c, 'init': init})
+        queues.append(q)
+    first = rng.randrange(len(objs))
+    ops = queues[first][:2]                  # its read and its re-assignment open the process
+    queues[first] = queues[first][2:]
+    while any(queues):
+        j = rng.choice([k for k, q in enumerate(queues) if q])
+        ops.append(queues[j].pop(0))
+    return {'objects': objs, 'ops': ops}
+
+
+def aper_scenario_run(sc):
+    """executed in a FRESH interpreter (see aper_worker); also used by --replay"""
+    objs = [ApObj(o['class'], o['init']) for o in sc['objects']]
+    bad = []
+    for k, op in enumerate(sc['ops']):
+        b = objs[op[0]].step(tuple(op[1:]))
+        if b:
+            bad.append([k, op[0], objs[op[0]].clsname, b[0], b[1]])
+    return {'obs': [None if o.sky else o.obs for o in objs], 'bad': bad}
+
+
+def aper_worker():
+    import json
+    import sys
+    sc = json.load(sys.stdin)
+    json.dump(aper_scenario_run(sc), sys.stdout)
+
+
+def run_in_fresh_process(scs):
+    """one new interpreter per scenario, all in parallel"""
+    import json
+    import subprocess
+    import sys
+    from .core import VERIF
+    procs = []
+    for sc in scs:
+        p = subprocess.Popen([sys.executable, '-W', 'ignore', '-c',
+                              'from harness import core, c09; core.setup_repo_path(); c09.aper_worker()'],
+                             cwd=str(VERIF), stdin=subprocess.PIPE, stdout=subprocess.PIPE, stderr=subprocess.PIPE,
+                             text=True)
+        p.stdin.write(json.dumps(sc))
+        p.stdin.close()
+        procs.append(p)
+    out = []
+    for p in procs:
+        txt = p.stdout.read()
+        err = p.stderr.read()
+        p.wait()
+        if p.returncode != 0:
+            raise RuntimeError('aperture worker failed: ' + err[-1500:])
+        out.append(json.loads(txt))
+    return out
+
+
+def tup_obs(o):
+    return (o[0], o[1], o[2], o[3], (o[4][0], o[4][1], o[4][2]))
+
+
+def section_aper_processes(ctx, cases, meta):
+    rng = ctx.rng
+    n = 16 if ctx.tier == 'quick' else 96
+    scs = [aper_scenario(rng) for _ in range(n)]
+    results = []
+    for i in range(0, n, 16):
+        results += run_in_fresh_process(scs[i:i + 16])
+    for sc, res in zip(scs, results):
+        desc = {'machine': 'apertures-in-one-process', 'objects': sc['objects'], 'ops': sc['ops']}
+        first = next((sc['objects'][o[0]]['class'] for o in sc['ops'] if o[1] == 'set'), 'none')
+        ctx.count_case(desc, True)
+        ctx.stat('aper-process', f'first re-assigned class: {first}')
+        for (k, j, clsname, nm, what) in res['bad']:
+            report(ctx, f'{clsname}.{nm}:after-reassignment',
+                   f'{clsname}.{nm} (object {j}) {what}, in a fresh process running {sc["ops"][:k + 1]} on '
+                   f'{[o["class"] for o in sc["objects"]]}', dict(desc, step=k, cmd='bin/check C09 --replay <this file>'))
+        for o, obs in zip(sc['objects'], res['obs']):
+            if obs is not None:
+                _, le, la = APCLS[o['class']]
+                cases.append(f'CAper {coq(le)} {coq(la)} {coq([tup_obs(x) for x in obs])}')
+                meta.append(('aper', desc, bool(res['bad'])))
+
+
+def replay_aper_process(r):
+    res = run_in_fresh_process([{'objects': r['objects'], 'ops': r['ops']}])[0]
+    for (k, j, clsname, nm, what) in res['bad']:
+        print(f'step {k}: {clsname}.{nm} (object {j}) {what}')
+    return res['bad']
+
+
+# --------------------------------------------------------------------------
 def run(ctx):
     ctx.build(FILES)
+    snapshot_pristine()
     ctx.cov['rule'] = (
         'histories of length <= 8 (reads / setter assignments / calls) on one real object per case, over '
         'Background2D (filter_threshold none/low/mid/high x filter_size x Zoom/IDW interpolator, masks, units, '
         'coverage mask, bottleneck as installed), RadialProfile / CurveOfGrowth (normalize max/sum, unnormalize, '
-        'zero / negative / NaN profiles, units), the six pixel aperture classes (valid and invalid '
-        'reassignments, scalar and list positions) and LocalBackground, PSFPhotometry (finder x grouper x '
-        'local background; init_params none / table / table with group_id, flux, local_bkg columns), '
+        'zero / negative / NaN / all-masked profiles, units; reads of profile, profile_error, data_profile, '
+        'normalization_value, calc_ee_at_radius, calc_radius_at_ee, area, radius, data_radius), the six pixel '
+        'aperture classes (valid and invalid reassignments, scalar and list positions) and LocalBackground, '
+        'PSFPhotometry (finder x grouper x local background x PSF model with/without a free shape parameter x '
+        'xy_bounds; init_params none / table / table with group_id, flux, local_bkg, fwhm columns, the column set '
+        'changing from call to call; the constructor\'s psf_model parameters snapshotted after every call), '
         'IterativePSFPhotometry (new/all), DAO/IRAF/StarFinder, Ellipse.fit_image (linear, fix_*), '
-        'GriddedPSFModel evaluations; thorough adds all 720 read orders of Background2D per configuration and '
-        'all orders of first reads around normalize/unnormalize; every step is compared with a FRESH object; '
-        'non-trivial = history with >= 2 steps mixing mutators/reads; distinct = distinct (configuration, history)')
+        'GriddedPSFModel evaluations (original and copy() sharing the cache); CROSS-OBJECT histories: 2-3 '
+        'Background2D objects (same mesh with / without coverage mask, different fill values) and pairs of '
+        '(Iterative)PSFPhotometry objects sharing helper instances (default-argument singletons or one '
+        'interpolator / estimator / finder / grouper / LocalBackground passed to both), read alternately and '
+        'compared with objects built from private copies of the pristine defaults (deep-copied before any object '
+        'of the run exists); 2-4 apertures of different pixel and sky classes driven in ONE fresh subprocess '
+        'per scenario with read -> re-assign -> read blocks, the class re-assigned first drawn at random; '
+        'thorough adds all 720 read orders of Background2D per configuration and all orders of first reads / '
+        'calc_* around normalize/unnormalize; every step is compared with a FRESH object; non-trivial = '
+        'history with >= 2 steps mixing mutators/reads; distinct = distinct (configuration, history)')
     ctx.assumptions += [
         'the numeric kernels (interpolators, median filters, fits, overlap kernels, splines) are abstract pure '
         'functions in the model; that they are deterministic functions of their arguments is observed on every '
@@ -1012,16 +1488,22 @@ def run(ctx):
         'profiles: the rescaling arithmetic is mirrored with Coq primitive floats (binary64); nanmax/nansum are '
         'modelled as left-to-right folds, valid for the < 8-element profiles generated',
         'caller-side in-place edits of returned arrays are outside the history alphabet (reads, setter '
-        'assignments, calls); images are passed as copies so that C10 defects do not leak into this check']
+        'assignments, calls); images are passed as copies so that C10 defects do not leak into this check',
+        'cross-object references are built from deep copies of the default-argument helpers taken at the start '
+        'of the run; state kept at module / class level is only reached through the per-scenario subprocesses '
+        '(apertures)']
     ctx.cov['partial_clauses'] = [
-        'starfinder_calls_fresh_partial: StarFinder normalises its kernel in place on every call; the theorem '
-        'assumes the normalisation is idempotent (k/max(k) has max exactly 1) -- that hypothesis is checked '
-        'bitwise on every StarFinder call of this run (support test), not proved about binary64 division',
-        'IterativePSFPhotometry, the star finders and LocalBackground values are tied to the implementation by the '
-        'direct fresh-object oracle only (iterative_calls_fresh / readonly_finder_calls_fresh are proved about the '
-        'model; the inner iteration schedule is an abstract function there)',
+        'Ellipse.fit_image: fix C09-4 is not applied (known finding Ellipse.fit_image:geometry-persists); the '
+        'implementation is compared with the code-as-found machine (ecall legacy=true, refuted by '
+        'ellipse_legacy_refuted); ellipse_calls_fresh is a theorem about the proposed repair only',
+        'IterativePSFPhotometry, the star finders, LocalBackground values, calc_ee_at_radius / '
+        'calc_radius_at_ee / area / radius / data_radius values and the cross-object comparisons are tied to '
+        'the implementation by the direct fresh-object oracle (the model covers their cache / state effect, '
+        'not their values; the inner iteration schedule is an abstract function there)',
         'PSFPhotometry calls that raise half-way (source off the image) are compared with a fresh object '
         'directly; the model has no such branch',
+        'starfinder_inplace_calls_fresh_partial (the code before fix C10-3) assumes an idempotent normalisation; '
+        'the current code only reads the kernel (starfinder_calls_fresh, full; attribute checked unchanged)',
         'RadialProfile.gaussian_fit / gaussian_profile / gaussian_fwhm are deliberately NOT among the observables: '
         'they are documented not to follow normalize()']
     cases, meta = [], []
@@ -1032,6 +1514,9 @@ def run(ctx):
     section_finders(ctx)
     section_ellipse(ctx, cases, meta)
     section_grid(ctx, cases, meta)
+    section_cross_bkg(ctx, cases, meta)
+    section_cross_psf(ctx, cases, meta)
+    section_aper_processes(ctx, cases, meta)
     bad = ctx.coq_eval_cases(['C09_Model'], 'check_case', cases, case_type='case', shard_numerals=12000)
     ctx.stat('coq', 'disagreements', len(bad))
     for i in bad[:25]:
@@ -1055,6 +1540,12 @@ def replay(obj):
         bad = replay_prof(r)
     elif m == 'aperture':
         bad = replay_aper(r)
+    elif m == 'apertures-in-one-process':
+        bad = replay_aper_process(r)
+    elif m == 'Background2D-objects-sharing-helpers':
+        bad = replay_cross_bkg(r)
+    elif m == 'PSFPhotometry-objects-sharing-helpers':
+        bad = replay_cross_psf(r)
     elif m in ('PSFPhotometry', 'IterativePSFPhotometry'):
         bad = replay_psf(r)
     elif m == 'Ellipse.fit_image':
